@@ -58,7 +58,8 @@ impl AsyncHandle {
         #[cfg(test)] validation_buffer: &Arc<Mutex<Cursor<Vec<u8>>>>,
     ) -> Self {
         let (sender, receiver) = crossbeam_channel::unbounded::<Vec<u8>>();
-        let a_pool = Arc::new(ArrayQueue::new(pool_capa));
+        // (an ArrayQueue with capacity 0 cannot be built)
+        let a_pool = Arc::new(ArrayQueue::new(pool_capa.max(1)));
 
         let mo_thread_handle = crate::threads::start_async_stdwriter(
             stdstream,
